@@ -147,6 +147,10 @@ let compare_mode () =
   let gone = ref [||] in                  (* process killed or exited *)
   let holder = ref (-1) in                (* process currently owning the cleaner *)
   let clean_oks = ref 0 in
+  let cleaned_up = ref false and last_verdict = ref "" in
+  let winner = ref (-1) and legit_release = ref false in
+  let cprogs = ref [||] and nrets = ref [||] in
+  let cur_op t = let p = (!cprogs).(t) and k = (!nrets).(t) in if k < Array.length p then p.(k) else "" in
   let oracle = ref "" in
   let op_started_after_death = ref [||] in (* per process: its running op began after the guard owner died *)
   let in_op = ref [||] in
@@ -168,6 +172,11 @@ let compare_mode () =
           | Some f -> let mf = listing_text m.fs in if mf <> f then mismatch "model" (Printf.sprintf "final listing: model [%s] impl [%s]" mf f)
           | None -> ())
        end;
+       (match final with
+        | Some f when !oracle = "collectable" && f <> "" ->
+          let cls = if !last_verdict = "Starting" then "UNCOLLECTABLE-STARTING" else if !last_verdict = "CleaningUp" then "UNCOLLECTABLE-CLEANINGUP" else "NEW" in
+          mismatch "spec" (Printf.sprintf "class=%s after the death of the process and a complete state/clean/cdrop/state round of a fresh process the files [%s] remain and the last verdict is %s" cls f !last_verdict)
+        | _ -> ());
        if !oracle = "onewinner" && !clean_oks <> 1 then
          mismatch "spec" (Printf.sprintf "racing cleaners on a dead process: %d of them returned Ok (expected exactly 1)" !clean_oks);
        let key = Digest.string (Buffer.contents tracebuf) in
@@ -187,7 +196,8 @@ let compare_mode () =
          List.iteri (fun i k -> if i < n && k <> "-" then kills.(i) <- Some (int_of_string k)) (split_on ',' (kv rest "kills" ""));
          inst := Some (mk_inst (kv rest "priv" "0" = "1") (kv rest "nlc" "0" = "1") progs kills);
          nproc := n; guard_owner := -1; guard_alive := false; guard_removed_state := false;
-         gone := Array.make n false; holder := -1; clean_oks := 0; oracle := kv rest "oracle" "";
+         gone := Array.make n false; holder := -1; clean_oks := 0; oracle := kv rest "oracle" ""; cleaned_up := false; last_verdict := ""; winner := -1; legit_release := false;
+         cprogs := Array.of_list (List.map (fun p -> Array.of_list (split_on ',' p)) (String.split_on_char '|' (kv rest "progs" ""))); nrets := Array.make n 0;
          op_started_after_death := Array.make n false; in_op := Array.make n false;
          Buffer.add_string tracebuf (kv rest "progs" "")
        | [ "E"; t; role; call; args; result; errno ] ->
@@ -197,7 +207,8 @@ let compare_mode () =
          (* oracle bookkeeping *)
          if not (!in_op).(t) then begin (!in_op).(t) <- true; (!op_started_after_death).(t) <- (!guard_owner >= 0 && not !guard_alive) end;
          if t = !guard_owner && role = "state" && call = "remove" then guard_removed_state := true;
-         if t = !holder && role = "owner" && call = "close" then holder := -1;
+         if t = !holder && role = "owner" && call = "close" && (cur_op t = "cdrop" || cur_op t = "cabandon") then begin
+           holder := -1; legit_release := (cur_op t = "cabandon") end;
          (match !inst with
           | Some m when not !dead ->
             let impl = Printf.sprintf "%s %s %s %s %s" role call args result errno in
@@ -218,7 +229,8 @@ let compare_mode () =
          Buffer.add_string tracebuf (Printf.sprintf "%dR%s%s;" t op token);
          bump ("ret:" ^ op ^ ":" ^ token);
          (* the property's oracle, on the implementation's own verdicts *)
-         if op = "create" && token = "ok" then begin guard_owner := t; guard_alive := true; guard_removed_state := false end;
+         if op = "create" && token = "ok" then begin guard_owner := t; guard_alive := true; guard_removed_state := false; cleaned_up := false; winner := -1 end;
+         if op = "state" then last_verdict := token;
          if op = "state" && token = "Dead" && !guard_owner >= 0 && !guard_alive then begin
            if !guard_removed_state
            then mismatch "spec" (Printf.sprintf "class=F3 process %d: state() = Dead while the guard process %d is alive (inside / after its orderly drop of the state file)" t !guard_owner)
@@ -229,11 +241,15 @@ let compare_mode () =
            incr clean_oks;
            if !guard_owner >= 0 && !guard_alive then
              mismatch "spec" (Printf.sprintf "class=RECLAIM process %d: ProcessCleaner::new = Ok while the guard process %d is alive" t !guard_owner);
+           if !holder < 0 && !winner >= 0 && !winner <> t && not !legit_release then
+             mismatch "spec" (Printf.sprintf "class=SECOND-WINNER process %d: ProcessCleaner::new = Ok although process %d already won and performed the cleanup (its StateFiles::drop removed the files) for this dead process" t !winner);
+           winner := t; legit_release := false;
            if !holder >= 0 && !holder <> t then
              mismatch "spec" (Printf.sprintf "class=TWO-OWNERS process %d: ProcessCleaner::new = Ok while process %d still owns the cleaner" t !holder);
            holder := t end;
+         if op = "cdrop" && !holder = t then cleaned_up := true;
          if (op = "cdrop" || op = "cabandon") && !holder = t then holder := -1;
-         (!in_op).(t) <- false;
+         (!in_op).(t) <- false; (!nrets).(t) <- (!nrets).(t) + 1;
          (match !inst with
           | Some m when not !dead ->
             push_rets t (drain_silent m t);
@@ -251,7 +267,7 @@ let compare_mode () =
          Buffer.add_string tracebuf (Printf.sprintf "%dK;" t);
          bump "kill";
          if t = !guard_owner then guard_alive := false;
-         if t = !holder then holder := -1;
+         if t = !holder then begin holder := -1; legit_release := true end;
          (!gone).(t) <- true;
          (match !inst with
           | Some m when not !dead ->
@@ -329,7 +345,8 @@ let explore (args : string list) =
               if pred = "two-owners" && g.g_holder >= 0 && g.g_holder <> t then bad := Some "two processes own the cleaner at the same time";
               if pred = "two-oks" && g.g_clean_oks >= 1 then bad := Some "a second ProcessCleaner::new returned Ok";
               g' := { !g' with g_clean_oks = g.g_clean_oks + 1; g_holder = t }
-            | ECall (role, KClose, _) when int_of_n role = 2 && g.g_holder = t -> g' := { !g' with g_holder = -1 }
+            | ECall (role, KClose, _) when int_of_n role = 2 && g.g_holder = t
+                                           && (match ls.(t).at_pc with Drop _ | Unwind _ -> true | _ -> false) -> g' := { !g' with g_holder = -1 }
             | ECrash -> if g.g_holder = t then g' := { !g' with g_holder = -1 }
             | _ -> ()) es;
           (* an operation of t starts with its dispatch step out of Idle *)
@@ -362,7 +379,27 @@ let explore (args : string list) =
     pred priv nlc (kv args "progs" "") (kv args "kills" "") !states !transitions !found (Queue.is_empty q);
   Hashtbl.iter (fun k v -> Printf.printf "VERDICT %s %d\n" k v) verdicts
 
+
+(* sequential mode: the processes run one after the other, each to completion; prints every return *)
+let seq (args : string list) =
+  let priv = kv args "priv" "0" = "1" and nlc = kv args "nlc" "0" = "1" in
+  let progs = Array.of_list (List.map (fun p -> List.map parse_op (split_on ',' p)) (String.split_on_char '|' (kv args "progs" ""))) in
+  let n = Array.length progs in
+  let kills = Array.make n None in
+  List.iteri (fun i k -> if i < n && k <> "-" then kills.(i) <- Some (int_of_string k)) (split_on ',' (kv args "kills" ""));
+  let m = mk_inst priv nlc progs kills in
+  let out = ref [] in
+  for t = 0 to n - 1 do
+    let rec go k = if k > 1000 then () else match step1 m t with
+      | None -> ()
+      | Some es -> List.iter (function ERet (op, code) -> out := Printf.sprintf "%d:%s:%s" t (op_name op) (ret_token op code) :: !out
+                                     | ECrash -> out := Printf.sprintf "%d:crash@%d" t (int_of_nat m.ls.(t).ncalls) :: !out | _ -> ()) es; go (k + 1) in
+    go 0
+  done;
+  Printf.printf "SEQ %s | listing=[%s]\n" (String.concat " " (List.rev !out)) (listing_text m.fs)
+
 let () =
   match Array.to_list Sys.argv with
   | _ :: "explore" :: rest -> explore rest
+  | _ :: "seq" :: rest -> seq rest
   | _ -> compare_mode ()
